@@ -275,7 +275,10 @@ def c05_r2(ctx):
                 if not ok:
                     # `if block_quality() > minq: return 0` -- nothing to skip
                     parent_if = _enclosing_if(f.node, n)
-                    if parent_if is not None and parent_if.body and isinstance(parent_if.body[0], ast.Return):
+                    if parent_if is not None and parent_if.body and isinstance(parent_if.body[-1], ast.Return) and \
+                            not any(isinstance(x, (ast.Assign, ast.AugAssign)) or (isinstance(x, ast.Expr) and any(
+                                norm.call_name(c) in ("next", "skip_to", "skip_to_quality", "_next_block", "_skip_to_block") for c in norm.calls_in(x)))
+                                for x in parent_if.body[:-1]):
                         ok = True
                     else:
                         why = "%s %s %s keeps/discards in the wrong direction" % (lt, "<" if isinstance(op, (ast.Lt, ast.Gt)) else "<=", rt)
